@@ -52,8 +52,13 @@ def demo_block(readme, agent_wt, wt, seed_dir):
     text = "\n".join(block)
     text = text.replace(agent_wt, wt)
     # demo files named without a directory are in the seed directory
-    for fn in os.listdir(seed_dir):
-        text = re.sub(r"(\bcp\s+(?:-r\s+)?)" + re.escape(fn) + r"(\s)", lambda m: m.group(1) + os.path.join(seed_dir, fn) + m.group(2), text)
+    lines = []
+    for l in text.split("\n"):
+        if re.search(r"\bcp\b", l):
+            for fn in os.listdir(seed_dir):
+                l = re.sub(r"(?<![\w/.-])" + re.escape(fn) + r"(?![\w.-])", os.path.join(seed_dir, fn), l)
+        lines.append(l)
+    text = "\n".join(lines)
     # a block that runs the demo both ways: keep the part before the patch is applied
     keep, seen_test = [], False
     for l in text.split("\n"):
